@@ -14,7 +14,7 @@ func init() {
 	register(&Property{
 		ID:          "C03",
 		Engines:     []string{"cfg", "lockset"},
-		Explanation: "Connection lifecycle, structural part: every teardown call is dominated, inside one critical section, by the !closed edge and the store closed=true (O1); the close/open notification fields, deleteConn and close(fd) have exactly the frozen caller sets (O2); open and close notifications are guarded by the same type predicate and the connection WaitGroup Add/Done sites are the frozen sets (O3); every effect of the public operations is dominated by the !closed edge and the closed edge returns the closed indication without effect (O4); table removal precedes close(fd), the open notification precedes the table insert and EPOLL_CTL_ADD (O5); closeErr has only the two frozen writers (O6); a dial success report is dominated by evidence of establishment and a pending dial callback is reported on teardown (O7). DialAsyncTimeout keeps a descriptor as a pending dial only for connect()==nil or EINPROGRESS (O8); deleteConn reports the close on every path except the nil guard and the UDP listener type (O9). The dial timer is armed only for a pending connect (O10). After the repair of the dial outcome: SO_ERROR evidence, consume-once under the mutex, teardown reports a pending callback once (O7).",
+		Explanation: "Connection lifecycle, structural part: every teardown call is dominated, inside one critical section, by the !closed edge and the store closed=true (O1); the close/open notification fields, deleteConn and close(fd) have exactly the frozen caller sets (O2); open and close notifications are guarded by the same type predicate and the connection WaitGroup Add/Done sites are the frozen sets (O3); every effect of the public operations is dominated by the !closed edge and the closed edge returns the closed indication without effect (O4); table removal precedes close(fd), the open notification precedes the table insert and EPOLL_CTL_ADD (O5); closeErr has only the two frozen writers (O6); a dial success report is dominated by evidence of establishment and a pending dial callback is reported on teardown (O7). DialAsyncTimeout keeps a descriptor as a pending dial only for connect()==nil or EINPROGRESS (O8); deleteConn reports the close on every path except the nil guard and the UDP listener type (O9). The dial timer is armed only for a pending connect (O10). After the repair of the dial outcome: SO_ERROR evidence, consume-once under the mutex, teardown reports a pending callback once (O7). The UDP session table is accessed under its own lock only (O11).",
 		NotCovered:  "histories and interleavings as such (the argument is one flag, one critical section, one caller chain); descriptor reuse by the kernel; UDP session races",
 		Run:         runC03,
 	})
